@@ -14,22 +14,24 @@ an action or an error for every character; it never panics or aborts, every comm
 the canvas size rather than by its coordinate values, and the exposed pixel canvas is always a complete
 width x height image.
 
-This property is PARTIAL BY DESIGN (DESIGN.md §4 C20).  Proved here, for ALL inputs, about the models of the code
-that is logic:
+This file: the RIP lexer, the BGI core and the IGS lexer.  `Props/C20Canvas.lean` adds the RIP canvas (flood fill,
+the exposed picture, totality of every modelled command), `Props/C20Igs.lean` the IGS DrawExecutor (argument
+validation, the executor invariant, picture, lines, flood fill, blits).  Proved here, for ALL inputs, about the models:
  * the RIP lexer over the regenerated command table (`rip_lex_total`, `rip_step_total`, `base36_bounded`,
    `rip_table_wellformed`),
  * the BGI core (`put_pixel_in_bounds`, `put_pixel_keeps_canvas`, `bar_rect_cost`, `bar_rect_cost_in_window`,
    `bar_no_panic`, `fill_span_cost`, `line_cost`, `canvas_complete`),
  * the IGS lexer and loop arithmetic (`igs_lex_total`, `igs_lex_total_partial`, `igs_loop_delay_zero`,
-   `igs_loop_terminates`, `igs_loop_counter_safe`).
+   `igs_loop_terminates`, `igs_loop_terminates_nonneg`, `igs_numbers_nonneg`, `igs_loop_counter_safe`).
 NOT covered by any theorem (exploration-supported only: the harness runs the real code with the panic / time /
-picture-size oracle): what a RIP command does when it runs apart from the BGI core above (arcs, ellipses, Béziers in
-f64, flood fill, stroked fonts, buttons, icons), the IGS painting in `paint.rs`, and the ANSI fallback.
+picture-size oracle): RIP arcs, ellipses, Béziers in f64, filled polygon, stroked fonts, buttons, icons; IGS text
+output; the ANSI fallback.
 
 `_partial` statements: `igs_lex_total_partial` — the IGS lexer has one reachable panic (`self.i += self.step`
 overflowing i32 for a loop step near 2^31); the statement names it as the only one, `igs_lex_total` excludes it by
 bounding the numbers (every value of the property's quantifier, <= 99999, is inside the bound).
-`igs_loop_terminates` is an equivalence whose excluded case (step 0) is reachable: a recorded finding.
+`igs_loop_terminates` is an equivalence; since the step-0 repair its excluded case (a negative step) cannot be produced
+by the lexer (`igs_loop_terminates_nonneg`).
 -/
 namespace IcyVerif.C20
 open IcyVerif
@@ -264,18 +266,58 @@ theorem igs_loop_delay_zero (s : Igs.Igs) (hg : Igs.IGood s) (l : Igs.Loop) (h :
   hg.2 l h
 
 /-- The loop command terminates (get_next_action eventually returns None) IF AND ONLY IF it is not running at all
-or its step is positive.  The lexer only produces steps >= 0, so the excluded case is step = 0 with from != to:
-reachable ("G#&1,,,,O,,:"), a recorded finding. -/
+or its step is positive.  As repaired (`fix:` step-0 guard) a loop with step 0 is not running, so the excluded case
+is a negative step, which the lexer cannot produce (numbers are digit strings without sign). -/
 theorem igs_loop_terminates (l : Igs.Loop) : l.Terminates ↔ (l.running = false ∨ 0 < l.step) :=
   Igs.loop_terminates_iff l
+
+/-- Every loop with a non-negative step terminates — in particular every loop the lexer can create (its numbers are
+accumulated from decimal digits: `parse_next_number` of a non-negative value and a digit is non-negative). -/
+theorem igs_loop_terminates_nonneg (l : Igs.Loop) (h : 0 ≤ l.step) : l.Terminates := by
+  rw [igs_loop_terminates]
+  by_cases h0 : l.step = 0
+  · left
+    unfold Igs.Loop.running
+    simp [h0]
+  · right; omega
+
+/-- `parse_next_number` keeps numbers non-negative -/
+theorem igs_numbers_nonneg (x : Int) (ch : Nat) (hx : 0 ≤ x) (hd : 48 ≤ ch) : 0 ≤ Igs.parseNextNumber x ch := by
+  have hs : ∀ v : Int, 0 ≤ v → 0 ≤ Igs.sat v := by
+    intro v hv
+    unfold Igs.sat
+    by_cases h1 : v > Igs.i32Max
+    · simp only [h1, if_true, Igs.i32Max]; omega
+    · by_cases h2 : v < Igs.i32Min
+      · simp only [Igs.i32Min] at h2; omega
+      · simp only [h1, h2, if_false]; exact hv
+  have hle : ∀ v : Int, v ≤ Igs.sat v ∨ Igs.sat v = Igs.i32Max := by
+    intro v
+    unfold Igs.sat
+    by_cases h1 : v > Igs.i32Max
+    · right; simp only [h1, if_true]
+    · by_cases h2 : v < Igs.i32Min
+      · left; simp only [h1, h2, if_true, if_false]; omega
+      · left; simp only [h1, h2, if_false]; omega
+  unfold Igs.parseNextNumber
+  have h1 := hs (x * 10) (by omega)
+  have h2 := hs (Igs.sat (x * 10) + (ch : Int)) (by omega)
+  -- the last step subtracts 48 from a value that is at least 48 (or saturated at i32::MAX)
+  have h3 : 48 ≤ Igs.sat (Igs.sat (x * 10) + (ch : Int)) := by
+    rcases hle (Igs.sat (x * 10) + (ch : Int)) with h | h
+    · omega
+    · rw [h]; simp only [Igs.i32Max]; omega
+  exact hs _ (by omega)
 
 /-- state of the IGS lexer after a stream (`none` = panic) -/
 def igsFinal (cs : List Nat) : Option Igs.Igs :=
   cs.foldl (fun (st : Option Igs.Igs) ch => st.bind fun s => match Igs.step s ch with | .ok s' _ => some s' | .panic _ => none)
     (some Igs.Igs.init)
 
-/-- non-vacuity of the excluded case: the stream "G#&1,,,,O,,:" leaves a running loop with step 0 -/
-example : ((igsFinal ("G#&1,,,,O,,:".toList.map Char.toNat)).bind (·.cur)).map (fun l => (l.step, l.running, l.from_, l.to)) = some (0, true, 1, 0) := by
+/-- non-vacuity: the stream "G#&1,,,,O,,:" (step 0, from != to: the former stall) leaves NO running loop; with step 1
+("G#&3,,1,,O,,:") a loop counting down from 3 is running -/
+example : ((igsFinal ("G#&1,,,,O,,:".toList.map Char.toNat)).map (·.cur.isSome)) = some false := by decide
+example : ((igsFinal ("G#&3,,1,,O,,:".toList.map Char.toNat)).bind (·.cur)).map (fun l => (l.step, l.running, l.from_, l.to)) = some (1, true, 3, 0) := by
   decide
 
 end IcyVerif.C20
